@@ -68,6 +68,11 @@ theorem G2 (R R' : T → T → Prop) (hsub : ∀ a x, R' a x → R a x) (hac : A
   intro x hx
   exact hac x (TransGen.mono hsub x x hx)
 
+/-- G3: in an acyclic relation a direct edge excludes the reverse path (corollary used as a z3 axiom of DEP_AX). -/
+theorem G3 (R : T → T → Prop) (hac : Acyclic R) (a x : T) (h : R a x) : ¬ TransGen R x a := by
+  intro hx
+  exact hac a (TransGen.head h hx)
+
 /-! ## Forests given by a parent map (lemmas D1–D5) -/
 
 def E (par : T → Option T) (a x : T) : Prop := par x = some a
